@@ -8,7 +8,7 @@
    changed in place when the update fails (repaired defect F16). *)
 From Coq Require Import List ZArith NArith Bool.
 From TF Require Import Base Query Index DB Spec proofs.IndexDefs proofs.RepP proofs.DBReadP proofs.DBRemoveP
-     proofs.DBStepP proofs.DBRunP proofs.DBSpecP.
+     proofs.DBStepP proofs.DBRunP proofs.DBSpecP IO proofs.IOP proofs.PlanP proofs.RaiseFileP.
 Import ListNotations.
 
 Theorem C11_raise_is_noop : forall E C norm, (forall p, wf_point p -> wf_point (norm p)) ->
@@ -26,5 +26,14 @@ Theorem C11_still_usable : forall E C norm, (forall p, wf_point p -> wf_point (n
   forall s o, Inv s -> wf_op E norm o -> Inv (fst (step E C norm s o)).
 Proof. exact step_Inv. Qed.
 
+(* ... and at the file: a removal, update, drop or read that raises has written nothing, at any point of its I/O script *)
+Theorem C11_raising_operation_leaves_file : forall E C norm, (forall p, wf_point p -> wf_point (norm p)) ->
+  forall s o k, Inv s -> wf_op E norm o -> is_insert o = false -> is_remove_all o = false ->
+  forallb nan_free_point (st_rows s) = true -> snd (step E C norm s o) = ORaise ->
+  let old := st_rows s in
+  w_disk (run_steps (world_of old) (firstn k (script_of old (plan_of o old (st_rows (fst (step E C norm s o))))))) = old.
+Proof. exact raising_operation_leaves_file. Qed.
+
 Print Assumptions C11_raise_is_noop.
+Print Assumptions C11_raising_operation_leaves_file.
 Print Assumptions C11_still_usable.
